@@ -172,10 +172,17 @@ class X12DataNode(object):
         Nodes will be inserted after the last node with matching ordinals
         """
         self._cleanup()
-        map_idx = x12_node.pos
+
+        def map_order(node):
+            # siblings that share a position keep the order in which the map lists them
+            # (the walker expects a required loop before its same-position siblings)
+            parent = node.parent
+            siblings = parent.pos_map.get(node.pos, []) if parent is not None and hasattr(parent, 'pos_map') else []
+            return (node.pos, siblings.index(node) if node in siblings else len(siblings))
+        new_order = map_order(x12_node)
         idx = None
         for i in range(len(self.children)):
-            if self.children[i].x12_map_node.pos <= map_idx:
+            if map_order(self.children[i].x12_map_node) <= new_order:
                 idx = i
         if idx is not None:
             return idx + 1
